@@ -60,6 +60,7 @@ func runHistory(r *Runner, format string, start string, ops []string, idx int, l
 	now := baseTime().Add(-time.Minute)
 	var env signature.Envelope
 	var startAbs any
+	var startSig []byte
 	switch start {
 	case "new":
 		env = newEnvelope(format)
@@ -81,8 +82,17 @@ func runHistory(r *Runner, format string, start string, ops []string, idx int, l
 			panic(fmt.Sprintf("tampered envelope does not parse: %v", err))
 		}
 		env = env2
+		// read off another object parsed from the same bytes: the object under observation is not touched before its history
+		if e3, err := signature.ParseEnvelope(mediaType(format), b); err == nil {
+			if c, err := e3.Content(); err == nil {
+				startSig = append([]byte{}, c.SignerInfo.Signature...)
+			}
+		}
 		startAbs = map[string]any{"content": 4, "verifies": verifies, "readable": true}
 	}
+	// the signature value the object must be showing: that of the bytes it was parsed from, then that of the bytes the last
+	// successful Sign returned ("matches the bytes that signing returned")
+	current := startSig
 	var absOps []any
 	var outs []any
 	for _, op := range ops {
@@ -110,6 +120,9 @@ func runHistory(r *Runner, format string, start string, ops []string, idx int, l
 					return
 				}
 				o = map[string]any{"o": "shows", "c": contentID(c.Payload.Content)}
+				if current != nil && !bytes.Equal(c.SignerInfo.Signature, current) {
+					o["state_defect"] = "object_shows_another_signature_value_than_the_bytes_it_holds: " + op
+				}
 			}()
 			outs = append(outs, o)
 		default:
@@ -180,6 +193,7 @@ func runHistory(r *Runner, format string, start string, ops []string, idx int, l
 				if perr == nil {
 					if c, cerr := e2.Content(); cerr == nil {
 						cid = contentID(c.Payload.Content)
+						current = append([]byte{}, c.SignerInfo.Signature...)
 					}
 				}
 				o = map[string]any{"o": "signOk", "c": cid}
